@@ -21,10 +21,15 @@ func init() {
 			"(R6) sibling table of the 24 level wrappers (Trace..Criticalf, plain and tracer methods): every severity constant a wrapper passes on is the level it is named after, the plain path logs exactly behind fastcheck of that level, and the tracer path hands the line to the tracer. " +
 			"(R7) sibling agreement (A14) over the wrapper families: Trace ~ Debug ~ Info ~ Warning ~ Error ~ Critical with their f-variants, for the global functions and for the tracer methods - each differs from Trace only in the level constant (and the line counters of warning and above); " +
 			"(R8) the writer's recovery handler stores a non-nil error to the writer's named result on every panic path (writerManager restarts the writer only when it returned an error); " +
+			"(R9) every constant-bound index/slice in the functions statically reachable from the writer, the formatter and the input/tracer functions is dominated by a length test implying the bound (a panic in the writer loses the lines it had already taken from the buffer); " +
 			"NOT decided: order under real producer interleavings, timing of the drain window.",
 		Rules: []ruleFn{c20R1, c20R2, c20R3, c20R4,
 			lockRuleFor("C20-R5", 4, []string{"log"}, []string{}, map[string]string{}),
-			c20R6, func(c *Ctx, r *Report) { siblingRule(c, r, "C20-R7", sibLog) }, c20R8},
+			c20R6, func(c *Ctx, r *Report) { siblingRule(c, r, "C20-R7", sibLog) }, c20R8,
+			func(c *Ctx, r *Report) {
+				r.SetFloor("C20-R9", 1)
+				boundsRule(c, r, "C20-R9", "writing or formatting a log line", "log.writer", "log.formatLine", "log.log", "log.(*ContextTracer).Submit", "log.(*ContextTracer).log", "log.AddTracer")
+			}},
 	})
 }
 
